@@ -7,7 +7,7 @@ TB = ("Trusted: Lean 4.33 kernel; axioms ⊆ {propext, Classical.choice, Quot.so
       "line-protocol drivers and the Python correspondence harness; ")
 CHECKS = {
  'C01': dict(cat='translation_validation', ref='DESIGN.md §5 C01',
-   text="Every explored design's REAL emitted Verilog is parsed and executed under a Lean formalisation of IEEE 1364 (expression sizing/signedness, continuous assigns to fixpoint, non-blocking updates, initial values, hierarchy) and compared from power-up, cycle by cycle, on every top-level output with the real simulator. The universally quantified part is proved in Lean: for every inlinable primitive the emitted expression form equals the Python leaf's landed value for ALL operand/result widths and values, and the emitted register body queues exactly Reg.clock's rule for controls of any width. Design-level theorem for FLAT designs (14 primitive kinds + Reg, any netlist meeting an explicit well-formedness predicate, any text order of the assigns): settled Verilog store = simulator model's propagateAll on every net, one cycle = clk 1, power-up = initC, hence agreement after every clk of any history, stated on the shipped interpreter (Props/C01Flat). Elaboration of the emitted module text into that flat form, deeper hierarchy, module sharing and the remaining primitives are validated per design, not proved for all designs.",
+   text="Every explored design's REAL emitted Verilog is parsed and executed under a Lean formalisation of IEEE 1364 (expression sizing/signedness, continuous assigns to fixpoint, non-blocking updates, initial values, hierarchy) and compared from power-up, cycle by cycle, on every top-level output with the real simulator. The universally quantified part is proved in Lean: for every inlinable primitive the emitted expression form equals the Python leaf's landed value for ALL operand/result widths and values, and the emitted register body queues exactly Reg.clock's rule for controls of any width. Design-level theorem for FLAT designs (14 primitive kinds + Reg, any netlist meeting an explicit well-formedness predicate, any text order of the assigns): settled Verilog store = simulator model's propagateAll on every net, one cycle = clk 1, power-up = initC, hence agreement after every clk of any history, stated on the shipped interpreter (Props/C01Flat). The link to the REAL TEXT is proved too (mkSim_shipInv / text_run): for every flat source description S that passes the executable check S.check, the Verilog interpreter run on the text S.emit agrees with the simulator model on every net after every clk of any history; per design the harness imports S from the live circuit and the driver decides `parsed real text = S.emit` syntactically (derived DecidableEq), so for covered designs (19 primitive kinds + Reg; 49/80 of the random plan stream, all of the dedicated flat stream) nothing behavioural is left to trust. Deeper hierarchy, module sharing, multi-assign/multi-leaf primitives (Bits*, Nand2/Nor2/Xor2, Equal*), Div/Mod, gated or derived clocks and transpiled bodies are validated per design, not proved for all designs.",
    note=TB + "the formal reading of IEEE 1364-2005 in lean/Py4hwV/Verilog is ours alone (no Verilog simulator installed); value-level x; unsized literals 32-bit signed; gated/derived clocks not explored; division/modulo by zero excluded.",
    tech="translation validation against a Lean-formalised Verilog semantics + Lean proofs of per-primitive inline soundness and the register body"),
  'C04': dict(cat='proof', ref='DESIGN.md §5 C04',
